@@ -162,8 +162,18 @@ pub fn worker(
         writeln!(out, "{}", json!({"t": "b", "i": i})).unwrap();
         out.flush().unwrap();
         progress.store(i as u64 + 1, std::sync::atomic::Ordering::Relaxed);
+        let t0 = Instant::now();
         prop.check(u, tier, &mut sink);
         sink.count("units", 1);
+        if let Ok(p) = std::env::var("VERIF_SLOWLOG") {
+            let dt = t0.elapsed().as_secs_f64();
+            if dt > 1.0 {
+                use std::io::Write as _;
+                if let Ok(mut f) = std::fs::OpenOptions::new().create(true).append(true).open(p) {
+                    let _ = writeln!(f, "{dt:.1}s\t{}\t{}", u.key, u.cfg.label());
+                }
+            }
+        }
         for v in sink.violations.drain(..) {
             writeln!(out, "{}", json!({"t": "v", "v": v})).unwrap();
         }
@@ -200,10 +210,16 @@ pub struct Finding {
     /// "known" (suppresses exactly the listed case) or "fixed" (documentation only)
     #[serde(default = "known")]
     pub status: String,
+    #[serde(default)]
     pub input: String,
+    #[serde(default)]
     pub config: String,
     pub what: String,
+    #[serde(default)]
     pub widths: Vec<usize>,
+    /// CLI drivers identify a finding by a case id instead of (input, config, widths)
+    #[serde(default)]
+    pub case: String,
     #[serde(default)]
     pub note: String,
     #[serde(default)]
